@@ -50,6 +50,9 @@ var kernels4 = []k3spec{
 	{pkg: ".", recv: "AddressPubKey", fn: "AddressPubKeyHash", name: "AddressPubKey_AddressPubKeyHash"},
 	{pkg: ".", recv: "AddressPubKey", fn: "PubKey", name: "AddressPubKey_PubKey"},
 	{pkg: ".", fn: "NewWIF", name: "NewWIF"},
+	{pkg: ".", fn: "calcHash", name: "bchutil_calcHash"},
+	{pkg: ".", fn: "Hash160", name: "Hash160_impl"},
+	{pkg: ".", fn: "Hash256", name: "Hash256_impl"},
 	{pkg: ".", recv: "OutOfRangeError", fn: "Error", name: "OutOfRangeError_Error"},
 	{pkg: "coinset", recv: "byValueAge", fn: "Len", name: "byValueAge_Len"},
 	{pkg: "coinset", recv: "byValueAge", fn: "Swap", name: "byValueAge_Swap"},
